@@ -108,4 +108,5 @@ def search_cases(o, seed):
 
 def native_cases(tier, seed):
     return [{"prop": PROP, "kind": "sweep", "inputs": {"seed": seed, "n": 600 if tier == "quick" else 20000}},
-            {"prop": PROP, "kind": "encoders", "inputs": {"seed": seed, "full": tier != "quick"}}]
+            {"prop": PROP, "kind": "encoders", "inputs": {"seed": seed, "full": tier != "quick"}},
+            {"prop": PROP, "kind": "two_dates", "inputs": {}}]
